@@ -92,8 +92,20 @@ extern "C" void c19_run()
   for (int t = 0; t < p->nthreads; t++)
     ths.emplace_back([=]() { stamp_ops(t + 1, p->ops[t], p->nops[t]); });
   Observable *oa[C19_MAXOBSERVABLES] = {nullptr, nullptr, nullptr};
-  Observer *ob[C19_MAXOBSERVERS] = {nullptr, nullptr, nullptr, nullptr};
+  Observer *ob[C19_MAXOBSERVERS] = {nullptr};
   for (int i = 0; i < p->nobs_ops; i++) {
+    if (p->bulk_n && i == p->bulk_at) {
+      for (int j = 0; j < p->bulk_n; j++) {
+        C19Op bop = {C19_NEW_OBSERVER, (uint8_t)(C19_REGULAR_OBSERVERS + j), (uint8_t)p->bulk_obs};
+        if (!c19_obs_applicable(&bop))
+          continue;
+        {
+          SimTag tag(SIM_TAG_SUT);
+          ob[bop.a] = new Observer(*oa[bop.b]);
+        }
+        c19_obs_done(&bop, -1);
+      }
+    }
     const C19Op &op = p->obs_ops[i];
     if (!c19_obs_applicable(&op))
       continue;
@@ -122,6 +134,18 @@ extern "C" void c19_run()
       stamp_ops(0, sop, 2);
     }
   }
+  // every observer of the bulk is polled once more before the teardown
+  for (int j = 0; j < p->bulk_n; j++) {
+    C19Op pop = {C19_POLL, (uint8_t)(C19_REGULAR_OBSERVERS + j), 0};
+    if (!c19_obs_applicable(&pop))
+      continue;
+    int res;
+    {
+      SimTag tag(SIM_TAG_SUT);
+      res = ob[pop.a]->wasNotified() ? 1 : 0;
+    }
+    c19_obs_done(&pop, res);
+  }
   // tear down what is left, observers and observables in the order the plan left them
   for (int k = 0; k < C19_MAXOBSERVERS + C19_MAXOBSERVABLES; k++) {
     C19Op op;
@@ -130,6 +154,8 @@ extern "C" void c19_run()
     if (obs_first ? k < C19_MAXOBSERVERS : k >= C19_MAXOBSERVABLES) {
       op.kind = C19_DEL_OBSERVER;
       op.a = (uint8_t)(obs_first ? idx : idx - C19_MAXOBSERVABLES);
+      if (p->bulk_n && (p->bulk_at & 1))  // the registry also shrinks from its other end
+        op.a = (uint8_t)(C19_MAXOBSERVERS - 1 - op.a);
     } else {
       op.kind = C19_DEL_OBSERVABLE;
       op.a = (uint8_t)(obs_first ? idx - C19_MAXOBSERVERS : idx);
